@@ -11,11 +11,12 @@ CONSTANTS
   Kinds = {"isub", "ssub", "rsub", "ofix", "bfix", "rfix"}
   TokKinds = {"one", "ld8", "jp", "call", "ldhl", "lda", "jr", "djnz", "defw", "defb", "defm", "defs"}
   Classes <- SimClasses
-  FlagSets <- AllFlags
+  FlagSets <- SimFlags
   TargetOffs = {0, 1, 2, 3, 4, 5, 6, 8, 4096}
   RemOffs = {0, 1, 2, 3}
   RemLens = {1, 2, 3}
   LabChoices = {TRUE, FALSE}
+  FeatureSets <- SimFeatures
   Ctls = {"c", "b", " ", "*"}
 INVARIANT TypeOK
 CHECK_DEADLOCK FALSE
